@@ -370,3 +370,92 @@ Proof.
   - intros (a & Ha). exists (Pof I a), (wof a). apply kfdc_sound_admissible; assumption.
   - intros (P & wt & H). apply (kfdc_complete_admissible I P wt WF H).
 Qed.
+
+(* ---------------------------------------------------------------------------------------------- *)
+(* For kFlowDecompCycles as it is (repetition cap = the edge's own flow value, c_scale_free = false) the bit-width and
+   product clauses of within_caps follow from the flow equation: the caps that matter are  wt i <= w_max  and
+   mult_i(e) <= cap(e). *)
+Lemma qtrunc_floor q : qtrunc q = inject_Z (Qfloor q).
+Proof. destruct q as [n d]. reflexivity. Qed.
+Lemma int_le_floor z q : (inject_Z z <= q)%Q -> (inject_Z z <= inject_Z (Qfloor q))%Q.
+Proof. intros H. rewrite <- Zle_Qle. rewrite <- (Qfloor_Z z). apply Qfloor_resp_le. exact H. Qed.
+
+Lemma lookup_q_default e l d : lookup_q e l d = lookup_q e l 0%Q \/ (lookup_q e l d = d /\ lookup_q e l 0%Q = 0%Q).
+Proof.
+  induction l as [|[e' q] l IH]; cbn [lookup_q]; [right; split; reflexivity|]. destruct (edge_eqb e' e); [left; reflexivity|exact IH].
+Qed.
+
+Section Simple.
+  Variable I : kfdc_inst.
+  Variable P : N -> list node.
+  Variable wt : N -> Q.
+  Let k := c_k I.
+  Let wm := kfdc_wmax I.
+  Hypothesis Hsf : c_scale_free I = false.
+  Hypothesis Hpos : (0 < wm)%Q.
+  Hypothesis HD : walk_decomposition I P wt.
+  Hypothesis Hwt : forall i, In i (layers k) -> (wt i <= wm)%Q.
+  Hypothesis Hcap : forall i e, In i (layers k) -> In e (g_edges (c_graph I)) -> (inject_Z (mult P i e) <= cap (kfdc_walk I) e)%Q.
+
+  Lemma flow_le_max e : In e (kept_edges I) -> (flow_of I e <= max_flow I)%Q.
+  Proof.
+    intros He. unfold max_flow. apply (proj2 (list_max_ge (map (flow_of I) (kept_edges I)) 0%Q)).
+    apply in_map. exact He.
+  Qed.
+  Lemma max_flow_nonneg : (0 <= max_flow I)%Q.
+  Proof. unfold max_flow. apply (proj1 (list_max_ge (map (flow_of I) (kept_edges I)) 0%Q)). Qed.
+
+  Lemma k_pos i : In i (layers k) -> (1 <= qnat k)%Q.
+  Proof.
+    intros Hi. apply in_layers in Hi. destruct Hi as (n & Hn & _). unfold qnat. change 1%Q with (inject_Z 1). rewrite <- Zle_Qle. lia.
+  Qed.
+
+  (* an integral quantity bounded by a flow value is bounded by w_max / k *)
+  Lemma below_unit i z : In i (layers k) -> (c_int I = true -> True) ->
+    (if c_int I then exists y : Z, (z == inject_Z y)%Q else True) -> (0 <= z)%Q -> (z <= max_flow I)%Q -> (z <= wm)%Q.
+  Proof.
+    intros Hi _ Hz Z0 Hle. pose proof (k_pos i Hi) as K1. pose proof max_flow_nonneg as M0.
+    unfold wm, kfdc_wmax. fold k. destruct (c_int I).
+    - destruct Hz as (y & Ey). rewrite qtrunc_floor. rewrite Ey in Hle, Z0 |- *.
+      pose proof (int_le_floor y _ Hle) as F. nra.
+    - nra.
+  Qed.
+
+  Lemma term_le_flow i e : In i (layers k) -> In e (kept_edges I) -> (wt i * inject_Z (mult P i e) <= flow_of I e)%Q.
+  Proof.
+    intros Hi He. destruct HD as (_ & Hw & Hf). rewrite <- (Hf e He). fold k.
+    apply (wsumq_ge_term (fun i => (wt i * inject_Z (mult P i e))%Q) (layers k) i); [|exact Hi].
+    intros j Hj. destruct (Hw j Hj) as [W0 _].
+    assert (0 <= inject_Z (mult P j e))%Q by (change 0%Q with (inject_Z 0); rewrite <- Zle_Qle; unfold mult, multz; lia). nra.
+  Qed.
+
+  Theorem within_caps_simple : within_caps I P wt.
+  Proof.
+    destruct HD as (_ & Hw & _).
+    assert (M0 : forall i e, (0 <= inject_Z (mult P i e))%Q) by (intros; change 0%Q with (inject_Z 0); rewrite <- Zle_Qle; unfold mult, multz; lia).
+    split; [exact Hwt|]. split; [exact Hcap|]. split.
+    - intros i e Hi He _. unfold prod_ub. rewrite Hsf. fold wm.
+      destruct (num_bits_spec wm ltac:(lra)) as [NB Nmin]. unfold pow2 in NB.
+      assert (Goal : (inject_Z (mult P i e) + 1 <= wm + 1)%Q \/ (mult P i e <= 1)%Z).
+      { pose proof (Hcap i e Hi (kept_in_E I e He)) as C. unfold cap in C. cbn [w_graph w_rep w_rep_default kfdc_walk] in C.
+        destruct (is_scc_edge (c_graph I) e).
+        - left. unfold kfdc_rep, kfdc_rep_default in C. rewrite Hsf in C. cbn [andb] in C.
+          destruct (lookup_q_default e (c_flow I) (kfdc_wmax I)) as [Eq|[Eq _]]; rewrite Eq in C.
+          + fold (flow_of I e) in C. pose proof (flow_le_max e He) as FM.
+            assert ((inject_Z (mult P i e) <= wm)%Q); [|lra].
+            apply (below_unit i _ Hi (fun _ => Logic.I)); [destruct (c_int I); [exists (mult P i e); reflexivity|exact Logic.I]|apply M0|lra].
+          + fold wm in C. lra.
+        - right. rewrite <- Zle_Qle in C || idtac. change 1%Q with (inject_Z 1) in C. rewrite <- Zle_Qle in C. exact C. }
+      destruct Goal as [G1|G1].
+      + assert (inject_Z (mult P i e + 1) <= inject_Z (2 ^ Z.of_nat (num_bits wm)))%Q by (rewrite inject_Z_plus; change (inject_Z 1) with 1%Q; lra).
+        rewrite <- Zle_Qle in H. lia.
+      + assert (1 <= num_bits wm)%nat.
+        { destruct (num_bits wm) eqn:Nb; [|lia]. exfalso. change (inject_Z (2 ^ Z.of_nat 0)) with 1%Q in NB. lra. }
+        assert (2 ^ 1 <= 2 ^ Z.of_nat (num_bits wm))%Z by (apply Z.pow_le_mono_r; lia). lia.
+    - intros i e Hi He. pose proof (term_le_flow i e Hi He) as T. pose proof (flow_le_max e He) as FM.
+      destruct (Hw i Hi) as [W0 Wi].
+      apply (below_unit i _ Hi (fun _ => Logic.I)); [|pose proof (M0 i e); nra|lra].
+      destruct (c_int I) eqn:Ci; [|exact Logic.I]. destruct (Wi eq_refl) as (y & Ey). exists (y * mult P i e)%Z.
+      rewrite Ey, inject_Z_mult. reflexivity.
+  Qed.
+End Simple.
